@@ -14,6 +14,17 @@ def Tx.isWellFormed (tx : Tx) : Bool :=
 def Tx.melTotalFits (tx : Tx) : Bool :=
   tx.fee + ((tx.outputs.filter fun o => o.denom = .mel).map (·.value)).sum ≤ U128_MAX
 
+/-- weight of one covenant given as bytes: `covenant_weight_from_bytes` -/
+def covenantWeightFromBytes (b : Bytes) : Nat :=
+  match decodeAll b with
+  | some ops => weight ops
+  | none => 0
+
+/-- the covenant weights add up within a u128 (guard added by the `fix:` for F19: `Transaction::weight` sums them with a
+    plain addition) -/
+def Tx.covWeightsFit (tx : Tx) : Bool :=
+  (tx.covenants.map covenantWeightFromBytes).sum ≤ U128_MAX
+
 /-- `output_coins_from_tx` -/
 def outputCoinsFromTx (tx : Tx) (height : Nat) : List (CoinID × CoinDataHeight) :=
   (tx.outputs.zipIdx).filterMap fun (o, i) =>
@@ -25,7 +36,7 @@ abbrev Relevant := AList CoinID CoinDataHeight
 
 /-- `load_relevant_coins` -/
 def loadRelevantCoins (s : State) (txs : List Tx) : Outcome Relevant :=
-  if !(txs.all fun tx => tx.isWellFormed && tx.melTotalFits) then .reject .malformedTx else
+  if !(txs.all fun tx => tx.isWellFormed && tx.melTotalFits && tx.covWeightsFit) then .reject .malformedTx else
   let created : Relevant := txs.foldl (fun acc tx => acc.extend (outputCoinsFromTx tx s.height)) []
   -- `extract_input_coins`
   let allInputs := txs.flatMap (·.inputs)
@@ -157,12 +168,6 @@ def validateDoscmint (env : Env) (s : State) (rel : Relevant) (tx : Tx) : Outcom
                   (doscToErg s.height rewardReal).bind fun rewardNom =>
                     let totalErg := (tx.totalOutputs.get .erg).getD 0
                     if totalErg > rewardNom then .reject .invalidMelPoW else .ok mySpeed
-
-/-- weight of one covenant given as bytes: `covenant_weight_from_bytes` -/
-def covenantWeightFromBytes (b : Bytes) : Nat :=
-  match decodeAll b with
-  | some ops => weight ops
-  | none => 0
 
 /-- `Transaction::weight` with `covenant_weight_from_bytes`; the plain `.sum()` over covenant weights
     panics on u128 overflow. -/
